@@ -76,6 +76,36 @@ func isParam(v ssa.Value, p *ssa.Parameter) bool {
 	return stores == 1
 }
 
+// mustUpdate: every return of g is preceded, on every path from entry, by update() on g's receiver with no later
+// write in between (approximated: every path from entry to a return passes a call of update on the receiver, and
+// no store follows the last one in the returning block).
+func mustUpdate(g, upd *ssa.Function, depth int) bool {
+	if g == nil || len(g.Blocks) == 0 || len(g.Params) == 0 || depth > 2 || namedOf(recvType(g)) != "SearchParams" {
+		return false
+	}
+	cut := func(ins ssa.Instruction) bool {
+		call, ok := ins.(*ssa.Call)
+		if !ok {
+			return false
+		}
+		cl := call.Common().StaticCallee()
+		if cl == nil || len(call.Common().Args) == 0 || !isParam(call.Common().Args[0], g.Params[0]) {
+			return false
+		}
+		return cl == upd || (cl != g && mustUpdate(cl, upd, depth+1))
+	}
+	// from the function entry
+	entry := g.Blocks[0]
+	if len(entry.Instrs) == 0 {
+		return false
+	}
+	if cut(entry.Instrs[0]) {
+		return true
+	}
+	ok, _ := mustPassBeforeReturn(entry, 0, cut, nil)
+	return ok
+}
+
 func fieldAddrOf(v ssa.Value, elem string) (*ssa.FieldAddr, bool) {
 	fa, ok := v.(*ssa.FieldAddr)
 	if !ok || fieldElem(fa.X.Type(), fa.Field) != elem {
@@ -174,7 +204,12 @@ func init() {
 					if !ok {
 						return false
 					}
-					return call.Common().StaticCallee() == upd && isParam(call.Common().Args[0], f.Params[0])
+					cl := call.Common().StaticCallee()
+					if cl == nil || len(call.Common().Args) == 0 || !isParam(call.Common().Args[0], f.Params[0]) {
+						return false
+					}
+					// update() itself, or a method of the same list that always ends with update()
+					return cl == upd || mustUpdate(cl, upd, 0)
 				}
 				// write instructions: stores / calls whose effect reaches P0.SearchParams:params...
 				isWrite := func(ins ssa.Instruction) bool {
@@ -242,7 +277,19 @@ func init() {
 					}
 				}
 				if nw == 0 {
-					s.Unknown(key, c.P.Pos(f.Pos()), "summary says the method writes the list but no writing instruction was located")
+					delegated := false
+					for _, b := range f.Blocks {
+						for _, ins := range b.Instrs {
+							if cut(ins) {
+								delegated = true
+							}
+						}
+					}
+					if delegated {
+						s.OK(key, c.P.Pos(f.Pos()), "delegates its writes to a method of the list that always ends with update()")
+					} else {
+						s.Unknown(key, c.P.Pos(f.Pos()), "summary says the method writes the list but no writing instruction was located")
+					}
 					continue
 				}
 				if bad != "" {
